@@ -669,7 +669,9 @@ func checkC18(r *Run) {
 			return descgen.Random(r.Seed, i, descgen.RandOpt{NoTemporal: true, NoCustom: true})
 		})
 	}
-	kinds := []string{"time-without-time_type", "duration-without-duration_type", "map-with-int32-key"}
+	// the temporal faults come in two flavours: neither type configured, or only the other one
+	kinds := []string{"time-without-time_type", "duration-without-duration_type", "map-with-int32-key",
+		"time-without-time_type/duration_type-set", "duration-without-duration_type/time_type-set"}
 	var all, compiled []*pipeline.Case
 	type fcase struct {
 		base, faulted, repaired *pipeline.Case
@@ -688,9 +690,16 @@ func checkC18(r *Run) {
 			be.Cfg.Types = append(be.Cfg.Types, be.File.Messages[len(be.File.Messages)-1].Name)
 		}
 		types := append([]string(nil), be.Cfg.Types...)
+		curKind := ""
 		strip := func(e *descgen.Entry) {
 			e.Cfg.Types = append([]string(nil), types...)
 			e.Cfg.TimeType, e.Cfg.DurationType = nil, nil
+			switch curKind {
+			case "time-without-time_type/duration_type-set":
+				e.Cfg.DurationType = descgen.DurQualified(false)
+			case "duration-without-duration_type/time_type-set":
+				e.Cfg.TimeType = descgen.TimeQualified(true)
+			}
 			e.Cfg.Sort, e.Cfg.SortSet = true, true
 		}
 		strip(be)
@@ -698,6 +707,22 @@ func checkC18(r *Run) {
 		base.NoWrite = true
 		base.Name = be.Name + "_base"
 		all = append(all, base)
+		// one fault-free run per configuration flavour
+		bases := map[string]*pipeline.Case{"": base}
+		for _, kk := range kinds[3:] {
+			curKind = kk
+			e := m()
+			if len(e.Cfg.Types) == 1 && len(e.File.Messages) > 1 {
+				e.Cfg.Types = types
+			}
+			strip(e)
+			b := caseFrom(e)
+			b.NoWrite = true
+			b.Name = fmt.Sprintf("%s_base%d", e.Name, len(bases))
+			bases[kk] = b
+			all = append(all, b)
+		}
+		curKind = ""
 		// positions: every message reachable from some selected type
 		posSet := map[string]bool{}
 		var positions []string
@@ -716,15 +741,16 @@ func checkC18(r *Run) {
 				if !r.thorough() && (pi+ki+fi)%2 == 1 && pi > 0 {
 					continue
 				}
+				curKind = kind
 				build := func(excl bool, name string, exclPathsOf ...string) *pipeline.Case {
 					e := m()
 					strip(e)
 					msg := e.File.Msg(pos, false)
 					var f *ir.Field
 					switch kind {
-					case "time-without-time_type":
+					case "time-without-time_type", "time-without-time_type/duration_type-set":
 						f = descgen.F("ZzUnmappable", descgen.TS())
-					case "duration-without-duration_type":
+					case "duration-without-duration_type", "duration-without-duration_type/time_type-set":
 						f = descgen.F("ZzUnmappable", descgen.Dur())
 					default:
 						f = descgen.F("ZzUnmappable", descgen.MapOf(), descgen.KeyT(ir.Int32))
@@ -748,7 +774,11 @@ func checkC18(r *Run) {
 				faulted := build(false, fmt.Sprintf("%sf%d_%d", be.Name, pi, ki))
 				faulted.NoWrite = true
 				repaired := build(true, fmt.Sprintf("%sx%d_%d", be.Name, pi, ki))
-				fc := fcase{base: base, faulted: faulted, repaired: repaired, msg: pos, kind: kind}
+				fbase := base
+				if b, ok := bases[kind]; ok {
+					fbase = b
+				}
+				fc := fcase{base: fbase, faulted: faulted, repaired: repaired, msg: pos, kind: kind}
 				for _, t := range types {
 					reach := false
 					for _, msg := range descgen.Reachable(be.File, t) {
